@@ -109,7 +109,7 @@ def restyle(styles, text):
     out = []
     for k, l in enumerate(lf_lines(text)):
         lead, gaps, trail, term = styles[k % len(styles)]
-        body = l if l.startswith("#") else spread(gaps, l)
+        body = l if l.strip().startswith("#") else spread(gaps, l)
         out.append(U(lead) + body + U(trail) + EOLS[term])
     return "".join(out)
 
@@ -446,15 +446,20 @@ def shrink(c):
     if op == "c10.entry":
         cl, ipl, ac, ho, styles = pl
         if len(styles) > 1:
-            for k in range(len(styles)):
-                yield dict(c, payload=[cl, ipl, ac, ho, styles[:k] + styles[k + 1:]])
-        for k, s in enumerate(styles):
-            for s2 in ([[], s[1], s[2], s[3]], [s[0], [], s[2], s[3]], [s[0], s[1], [], s[3]], [s[0], s[1], s[2], 0]):
+            for k in range(min(len(styles), 6)):
+                yield dict(c, payload=[cl, ipl, ac, ho, [styles[k]]])
+        elif styles:
+            s = styles[0]
+            for s2 in ([[], [], [], 0], [[], s[1], s[2], s[3]], [s[0], [], s[2], s[3]], [s[0], s[1], [], s[3]],
+                       [s[0], s[1], s[2], 0]):
                 if s2 != s:
-                    yield dict(c, payload=[cl, ipl, ac, ho, styles[:k] + [s2] + styles[k + 1:]])
-        sub = {0: c01, 1: c08}.get(cl)
+                    yield dict(c, payload=[cl, ipl, ac, ho, [s2]])
+        if ac:
+            yield dict(c, payload=[cl, ipl, 0, ho, styles])
         if cl == 0:
-            for c2 in c01.shrink({"op": "c01.file", "payload": ipl, "tags": {}}):
+            for n, c2 in enumerate(c01.shrink({"op": "c01.file", "payload": ipl, "tags": {}})):
+                if n >= 12:
+                    break
                 yield dict(c, payload=[cl, c2["payload"], ac, ho, styles])
     else:
         cl, e, ext, content, ac, ho = pl
